@@ -369,6 +369,24 @@ def evalQueued (ins outs : List String) : Verdict :=
     .ok "queued"
   | _, _, _, _, _ => .bad "queued fields"
 
+/-- `kind=delfault`: one datastore Delete fails in the middle of a tail-side DeleteRange; after the retry nothing of the
+    range is left - by height, by hash, after a restart, or as a raw key -/
+def evalDelFault (ins outs : List String) : Verdict :=
+  match kvNat? ins "n", kvNat? ins "to", kv? outs "res1", kv? outs "res2", (kv? outs "byheight").bind natList?, (kv? outs "byhash").bind natList?,
+        (kv? outs "byheight2").bind natList?, (kv? outs "byhash2").bind natList?, kvNat? outs "tail", kvNat? outs "rawleft" with
+  | some n, some to, some r1, some r2, some bh, some bx, some bh2, some bx2, some tl, some left =>
+    let rest := (List.range (n + 1)).filter fun h => to ≤ h
+    if r1 == "ok" then (if bh == rest && bx == rest then .ok "delfault-nofault" else .prop "c08_removed" s!"byheight={bh} byhash={bx}") else
+    -- failed part-way: the Tail the store reports must still be a STORED header
+    if (kv? outs "tail1stored").any (fun t => t != "byheight:ok,byhash:ok,has:true") then
+      .prop "c08_pointers_resolve_after_fault" s!"after the failed DeleteRange Tail()={(kvNat? outs "tail1").getD 0} is not a stored header: {(kv? outs "tail1stored").getD ""}" else
+    if r2 != "ok" then .prop "c08_retry_completes" s!"retry: {r2}" else
+    if bh != rest || bh2 != rest then .prop "c08_removed" s!"by height: {bh} / after restart {bh2}, expected {rest}" else
+    if bx != rest || bx2 != rest then .prop "c08_removed" s!"by HASH: {bx} / after restart {bx2}, expected {rest}" else
+    if left != 0 then .prop "c08_removed" s!"{left} raw keys of the deleted range are still in the datastore" else
+    if tl != to then .prop "c08_pointers" s!"tail={tl}" else .ok "delfault"
+  | _, _, _, _, _, _, _, _, _, _ => .bad "delfault fields"
+
 /-- `kind=flushinhandler`: the pending batch is flushed while the handler of an unflushed header is in flight -/
 def evalFlushInHandler (ins outs : List String) : Verdict :=
   match kvNat? ins "n", kvNat? ins "to", kvNat? ins "more", kv? outs "delete", kvNat? outs "head", kvNat? outs "tail",
@@ -389,6 +407,7 @@ def evalFlushInHandler (ins outs : List String) : Verdict :=
 healed (`kind=parfail`).  Pure predicates from the texts of C08 / C14 / C04 on the implementation's observation. -/
 def evalParFail (tag : String) (ins outs : List String) : Verdict :=
   if kv? ins "kind" == some "queued" then evalQueued ins outs else
+  if kv? ins "kind" == some "delfault" then evalDelFault ins outs else
   if kv? ins "kind" == some "flushinhandler" then evalFlushInHandler ins outs else
   match kvNat? ins "n", kvNat? ins "to", kvNat? ins "failfrom", kvNat? ins "only",
         kv? outs "res1", kvNat? outs "tail1", kvNat? outs "head1", (kv? outs "stored1").bind natList?, (kv? outs "keys1").bind natList?,
